@@ -10,7 +10,7 @@ future a task is parked on, then run the loop until that task parks again or end
 (run-to-next-suspension).  ALL schedules (FIFO and non-FIFO drain wake-up orders) of each
 scenario are enumerated; after every prefix the observation
 
-    wire (seq, type, possdup, id) in order | per task: outcome of each send call, exception
+    wire (seq, type, possdup, id, gapfill) in order | per task: outcome of each send call, exception
     swallowed by the reader, where it is parked | journal rows | stored counter | live counter |
     state | role | TestReqID pending | schedule obeys FIFO drain wake-up
 
@@ -33,7 +33,6 @@ SENDER, TARGET, BEGIN = "CLI", "SRV", "FIX.4.4"
 TIME = "20230101-10:00:00.000"
 SOH = "\x01"
 ST_NCE, ST_ACTIVE = 6, 17
-KF_OVERLAP = "send_overlaps_resend_service"
 
 META = {
     "level": "proof",
@@ -59,15 +58,16 @@ META = {
 # ------------------------------------------------------------------------------------------
 # scenarios
 # ------------------------------------------------------------------------------------------
-# msg   = [type char, id, own MsgSeqNum or None, possdup]
+# msg   = [type char, id, own MsgSeqNum or None, possdup, gapfill]
 # task  = ["send", [msg..]] | ["hb"] | ["in", kind, ...]   kind: "testreq" | "gap" | "app" | "logon" | "resend", b, e, [declined]
 
 
 def D(i):
-    return ["D", i, None, False]
+    return ["D", i, None, False, False]
 
 
-HB = ["0", 0, None, False]
+HB = ["0", 0, None, False, False]
+LOGON = ["A", 0, None, False, False]
 
 
 def scn(name, tasks, pre=(), st=ST_ACTIVE, role=1, treq=False, oracle=True):
@@ -85,15 +85,18 @@ def scenarios(tier):
     S.append(scn("reader on_message + sender", [["in", "app"], ["send", [D(1), D(2)]]]))
     S.append(scn("logon window + 2 senders", [["in", "logon"], ["send", [D(1)]], ["send", [D(2)]]], st=ST_NCE, role=0))
     S.append(scn("logon window + sender x 2", [["in", "logon"], ["send", [D(1), D(2)]]], st=ST_NCE, role=0))
-    S.append(scn("initiator first Logon + sender", [["send", [["A", 0, None, False]]], ["send", [D(1)]], ["send", [["A", 0, None, False]]]],
+    S.append(scn("initiator first Logon + sender", [["send", [LOGON]], ["send", [D(1)]], ["send", [LOGON]]],
                  st=ST_NCE, role=0))
     # application-sent SequenceReset / PossDup messages keep their own number (D20, C05's domain): model comparison only
-    S.append(scn("sender with own-number messages", [["send", [["4", 9, 7, False], D(1)]], ["send", [D(2), ["D", 3, 1, True]]]],
-                 oracle=False))
+    S.append(scn("sender with own-number messages", [["send", [["4", 9, 7, False, False], D(1), ["4", 5, 2, False, True]]],
+                                                     ["send", [D(2), ["D", 3, 1, True, False]]]], oracle=False))
     # ResendRequest being serviced
     S.append(scn("resend alone", [["in", "resend", 1, 0, []]], pre=[D(1), D(2), HB, D(4)]))
     S.append(scn("resend alone declined+tail", [["in", "resend", 2, 0, [2]]], pre=[D(1), D(2), D(3), HB]))
     S.append(scn("resend bounded alone", [["in", "resend", 1, 2, []]], pre=[D(1), D(2), D(3)]))
+    S.append(scn("resend(0,0) clamped + sender", [["in", "resend", 0, 0, []], ["send", [D(9)]]], pre=[D(1), HB, D(3)]))
+    S.append(scn("resend(-3,0) alone", [["in", "resend", -3, 0, []]], pre=[D(1), D(2)]))
+    S.append(scn("resend beyond + sender", [["in", "resend", 7, 0, []], ["send", [D(9)]]], pre=[D(1), D(2)]))
     S.append(scn("resend + sender", [["in", "resend", 1, 0, []], ["send", [D(9)]]], pre=[D(1), D(2), D(3)]))
     S.append(scn("resend + sender x 2", [["in", "resend", 2, 0, []], ["send", [D(8), D(9)]]], pre=[D(1), D(2), HB]))
     S.append(scn("resend + heartbeat probe", [["in", "resend", 1, 0, []], ["hb"]], pre=[D(1), D(2)]))
@@ -115,7 +118,7 @@ def scenarios(tier):
 # ------------------------------------------------------------------------------------------
 
 def sx_msg(m):
-    return "[%d,%d,%s,%d]" % (ord(m[0]), m[1], "[]" if m[2] is None else "[%d]" % m[2], 1 if m[3] else 0)
+    return "[%d,%d,%s,%d,%d]" % (ord(m[0]), m[1], "[]" if m[2] is None else "[%d]" % m[2], 1 if m[3] else 0, 1 if m[4] else 0)
 
 
 def model_task(t):
@@ -128,11 +131,11 @@ def model_task(t):
     if kind == "testreq":
         code = "[0,%s]" % sx_msg(HB)
     elif kind == "gap":
-        code = "[0,%s],[3,12,0]" % sx_msg(["2", 0, None, False])
+        code = "[0,%s],[3,12,0]" % sx_msg(["2", 0, None, False, False])
     elif kind == "app":
         code = "[4]"
     elif kind == "logon":
-        code = "[3,8,0],[5,2],[0,%s],[3,17,0],[4]" % sx_msg(["A", 0, None, False])
+        code = "[3,8,0],[5,2],[0,%s],[3,17,0],[4]" % sx_msg(LOGON)
     elif kind == "resend":
         code = "[3,10,1],[6,%d,%d,[%s]]" % (t[2], t[3], ",".join(str(d) for d in t[4]))
     else:
@@ -341,6 +344,8 @@ class Impl:
             fm.set(34, str(m[2]))
         if m[3]:
             fm.set(43, "Y")
+        if m[4]:
+            fm.set(123, "Y")
         return fm
 
     async def prehistory(self):
@@ -422,14 +427,15 @@ class Impl:
     _fp_cache = {}
 
     def fproj(self, data):
-        """frame bytes -> [MsgSeqNum, ord(MsgType), PossDupFlag, id] through the real decoder (memoised by bytes)."""
+        """frame bytes -> [MsgSeqNum, ord(MsgType), PossDupFlag, id, GapFillFlag] through the real decoder (memoised by bytes)."""
         data = bytes(data)
         hit = Impl._fp_cache.get(data)
         if hit is None:
             m, _, _ = self.codec.decode(data, silent=False)
             ty = str(m.msg_type)
             ident = int(m[36]) if ty == "4" else int(m.get(58, "0"))
-            hit = Impl._fp_cache[data] = (int(m[34]), ord(ty), 1 if m.get(43, "N") == "Y" else 0, ident)
+            hit = Impl._fp_cache[data] = (int(m[34]), ord(ty), 1 if m.get(43, "N") == "Y" else 0, ident,
+                                          1 if m.get(123, "N") == "Y" else 0)
         return list(hit)
 
     def observe(self):
@@ -554,55 +560,39 @@ def oracle(s, obs, extra):
         before = [g for g in wire[:i] if is_new(g)]
         if f[2]:
             orig = [g for g in before if g[0] == f[0]]
-            if not orig or (orig[0][1], orig[0][3]) != (f[1], f[3]) or len(orig) > 1:
+            if len(orig) != 1 or (orig[0][1], orig[0][3]) != (f[1], f[3]):
                 bad.append("PossDup frame %r does not retransmit the one message sent under its number" % (f,))
                 break
         elif f[1] == ord("4"):
             hi = max([g[0] for g in before], default=0)
-            if not (f[0] < f[3] <= hi + 1):
-                bad.append("gap fill %d->%d is not over numbers already used (highest %d)" % (f[0], f[3], hi))
+            if not (f[4] and f[0] < f[3] <= hi + 1):
+                bad.append("SequenceReset %d->%d is not a gap fill over numbers already used (highest %d)" % (f[0], f[3], hi))
                 break
-    # every frame is journaled under its number, without a duplicate error
+    # every frame is journaled under its number, without a duplicate error: each new message is stored exactly once
+    # when it is sent, nothing else is stored, and at the end the row under every number that went out (new message or
+    # its retransmission) is that new message
+    n_pre = extra["n_pre"]
     persisted = sorted(bytes.fromhex(e[1]) for e in extra["events"] if e[0] == "P" and e[2])
-    sent = sorted(bytes.fromhex(d) for d in extra["wire_raw"][extra["n_pre"]:])
-    if persisted != sent:
-        bad.append("%d frame(s) written, %d journaled" % (len(sent), len(persisted)))
-    if not any(e[0] == "SET" for e in extra["events"]):
-        want = {}
-        for f in wire:
-            want[f[0]] = f
-        if rows != [[k, want[k]] for k in sorted(want)]:
-            bad.append("journal rows %r differ from the frames sent %r" % (rows, sorted(want.items())))
+    sent_new = sorted(bytes.fromhex(d) for d, f in zip(extra["wire_raw"][n_pre:], wire[n_pre:]) if is_new(f))
+    if persisted != sent_new:
+        bad.append("%d new frame(s) written, %d frame(s) journaled" % (len(sent_new), len(persisted)))
+    want = {}
+    for f in new:
+        want.setdefault(f[0], f)
+    if rows != [[k, want[k]] for k in sorted(want)]:
+        bad.append("journal rows %r differ from the messages sent %r" % (rows, sorted(want.items())))
+    for f in wire:
+        if f[2] and f[0] not in want:
+            bad.append("retransmission %r has no journal row" % (f,))
+            break
+    if any(e[0] == "SET" for e in extra["events"]):
+        bad.append("the outbound journal was rewound (set_seq_num) while tasks were sending")
     if any(e[0] == "P" and not e[2] for e in extra["events"]) or any(5 in t[0] or t[1] == [5] for t in tasks):
         bad.append("DuplicateSeqNoError")
     # stored counter = highest number sent
     if new and sout != max(f[0] for f in new):
         bad.append("stored outbound counter %d, highest number sent %d" % (sout, max(f[0] for f in new)))
     return bad
-
-
-def overlaps_resend_service(s, extra):
-    """Class predicate of the known finding: a send of a new message by another task is in progress or starts
-    between the ResendRequest handler's rewind (first set_seq_num) and its restore (second; never, if it aborted)."""
-    ev = extra["events"]
-    readers = [i for i, t in enumerate(s["tasks"]) if t[0] == "in" and t[1] == "resend"]
-    for r in readers:
-        sets = [k for k, e in enumerate(ev) if e[0] == "SET" and e[1] == r]
-        if not sets:
-            continue
-        lo = sets[0]
-        hi = sets[1] if len(sets) > 1 else len(ev)
-        open_ = {}
-        for k, e in enumerate(ev):
-            if e[0] == "S" and e[1] != r and e[2]:
-                open_[e[1]] = k
-            elif e[0] == "E" and e[1] != r and e[2]:
-                st = open_.pop(e[1], None)
-                if st is not None and st < hi and k > lo:
-                    return True
-        if any(st < hi for st in open_.values()):
-            return True
-    return False
 
 
 # ------------------------------------------------------------------------------------------
@@ -626,30 +616,36 @@ def judge(ctx, s, sched, obs, extra):
         ctx.disagree({"scn": s, "sched": sched}, extra["stuck"], None, "suspension-points")
     if done and obs[8] and s.get("oracle", True):
         for what in oracle(s, obs, extra)[:1]:
-            cls = KF_OVERLAP if overlaps_resend_service(s, extra) else None
-            ctx.fail({"scn": s, "sched": sched}, what + " | wire " + json.dumps(obs[0]), cls)
+            ctx.fail({"scn": s, "sched": sched}, what + " | wire " + json.dumps(obs[0]), None)
+        if any(t[0] == "in" and t[1] == "resend" for t in s["tasks"]) and len(s["tasks"]) > 1:
+            ctx.count("complete-fifo-with-resend-service")
     elif done:
         ctx.count("complete-nonfifo")
         new = [f for f in obs[0] if not f[2] and f[1] != ord("4")]
-        if new and obs[3] != max(f[0] for f in new) and not any(e[0] == "SET" for e in extra["events"]):
+        if new and obs[3] != max(f[0] for f in new):
             ctx.count("nonfifo-counter-below-highest")
     if done:
         ctx.count("complete")
 
 
 def witnesses():
-    """The witness schedules of the *_refuted theorems (Props/C14.v), re-run on the implementation."""
-    T, Q = ord("1"), ord("4")
-    rw = scn("witness resend window", [["in", "resend", 1, 0, []], ["send", [D(9)]]], pre=[D(1), D(2), D(3)])
-    hb = scn("witness heartbeat in flight", [["in", "resend", 1, 0, []], ["hb"]], pre=[D(1), D(2)])
+    """The example schedules of Props/C14.v, re-run on the implementation: the three schedules that broke the
+    property before the repair of D12 (now C14_resend_window_example / .._caller_example / C14_heartbeat_inflight_example)
+    and the LIFO wake-up witness of C14_lifo_counter_refuted."""
+    rw = scn("example resend window", [["in", "resend", 1, 0, []], ["send", [D(9)]]], pre=[D(1), D(2), D(3)])
+    hb = scn("example heartbeat in flight", [["in", "resend", 1, 0, []], ["hb"]], pre=[D(1), D(2)])
     lifo = scn("witness LIFO wake-up", [["send", [D(1)]], ["send", [D(2)]]])
+    seqs = lambda o: [(f[0], f[2], f[3]) for f in o[0]]  # noqa: E731
     return [
-        ("C14_resend_window_refuted", rw, [0, 0, 1, 0, 1, 0],
-         lambda o: [1, 68, 0, 1] in o[0] and [1, 68, 0, 9] in o[0] and o[1][0][1] == [5] and o[3] == 1 and o[4] == 2 and o[8] == 1),
-        ("C14_resend_window_caller_refuted", rw, [0, 0, 0, 0, 1, 1, 0, 0, 0, 0, 0],
-         lambda o: [1, 68, 0, 1] in o[0] and [1, 68, 0, 9] in o[0] and o[1][1][0] == [5] and o[8] == 1),
-        ("C14_heartbeat_inflight_refuted", hb, [1, 0, 0, 0, 1, 0, 0, 0, 0],
-         lambda o: [3, T, 0, 0] in o[0] and [3, Q, 0, 4] in o[0] and o[1][0][1] == [5] and o[4] == 1 and o[5] == 10 and o[8] == 1),
+        ("C14_resend_window_example", rw, [0, 0, 1, 0, 1, 0, 0, 0, 0, 0, 0],
+         lambda o: seqs(o) == [(1, 0, 1), (2, 0, 2), (3, 0, 3), (4, 0, 9), (1, 1, 1), (2, 1, 2), (3, 1, 3)]
+         and o[3] == 4 and o[4] == 5 and o[5] == 17 and o[8] == 1),
+        ("C14_resend_window_caller_example", rw, [0, 0, 0, 0, 1, 1, 0, 0, 0, 0, 0],
+         lambda o: seqs(o) == [(1, 0, 1), (2, 0, 2), (3, 0, 3), (1, 1, 1), (4, 0, 9), (2, 1, 2), (3, 1, 3)]
+         and o[1][1][0] == [0] and o[3] == 4 and o[4] == 5 and o[8] == 1),
+        ("C14_heartbeat_inflight_example", hb, [1, 0, 0, 0, 1, 0, 0, 0, 0, 0],
+         lambda o: [f[:3] for f in o[0]] == [[1, 68, 0], [2, 68, 0], [3, 49, 0], [1, 68, 1], [2, 68, 1], [3, 52, 0]]
+         and o[0][-1][3:] == [4, 1] and o[1][0][1] == [] and o[3] == 3 and o[4] == 4 and o[5] == 17 and o[8] == 1),
         ("C14_lifo_counter_refuted", lifo, [0, 1, 1, 0],
          lambda o: [f[0] for f in o[0]] == [1, 2] and o[3] == 1 and o[4] == 3 and o[8] == 0),
     ]
@@ -666,11 +662,11 @@ def run_witnesses(ctx):
             if mo != obs:
                 ctx.disagree({"scn": s, "sched": sched}, obs, mo, "witness-observation")
         if not ok:
-            ctx.notes.append("note: witness of %s no longer reproduces on the implementation: %r" % (name, obs))
+            ctx.notes.append("note: example schedule of %s does not reproduce on the implementation: %r" % (name, obs))
         ctx.case((s["name"], tuple(sched)), True)
         ctx.traces += 1
         judge(ctx, s, sched, obs, extra)
-    ctx.extra["refuted_witnesses_confirmed_on_implementation"] = conf
+    ctx.extra["example_schedules_confirmed_on_implementation"] = conf
 
 
 def run(ctx):
@@ -720,7 +716,7 @@ def replay(path):
         return 1
     obs, extra = run_node(case["scn"], case["sched"])
     print("scenario:", case["scn"]["name"], "schedule:", case["sched"])
-    print("wire (seq, type, possdup, id):", obs[0])
+    print("wire (seq, type, possdup, id, gapfill):", obs[0])
     print("tasks (send outcomes, swallowed exception, parked):", obs[1])
     print("journal rows:", obs[2], "stored counter:", obs[3], "next_num_out:", obs[4], "state:", obs[5])
     bad = oracle(case["scn"], obs, extra) if all(t[2] == 3 for t in obs[1]) else []
